@@ -4,6 +4,11 @@ import json, os, sys
 HERE = os.path.dirname(os.path.dirname(os.path.abspath(__file__)))
 
 CHECKS = {
+ "C16": dict(
+   technique="metamorphic testing over the 16 option configurations (all strict->relaxed edges) and validity-predicate testing of urls_from_text over exhaustively enumerated and random token texts",
+   text="is_url evaluated under all 16 configurations on grammar URLs and a near-miss panel: every strict->relaxed edge, whitespace invariance, TLD rule against the bundled TLD set; urls_from_text on every text of <=2/3 tokens over a 63-token alphabet (URLs, complete/truncated markdown links, ASCII/typographic punctuation) and <=3/4 tokens over a reduced one, plus random texts: no exception, non-empty stripped substrings in order, protocol present, accepted by is_url.",
+   note="Trusted base: harness copy of the protocol notion; vlib/urlref.split for the host; ural.tld_data.TLDS as the TLD set. Exceptions are bucketed by innermost ural frame.",
+   design="§4 C16"),
  "C15": dict(
    technique="grammar-based enumeration + Hypothesis recursive nesting; totality/termination, existential target re-derivation and fixed-point laws",
    text="Every (position x key x target x encoding level) combination of a redirect grammar incl. keys in host/userinfo position, relative, self-referential and nested targets, AMP/Marfeel/youtube panels, random nestings and arbitrary strings; RecursionError/alarm = violation; single-step result must be the input or derivable from a key=value / cache tail of the input; recursive result == limit of single steps and is a fixed point.",
